@@ -12,6 +12,16 @@ OP_NOTE = ("Trusted: TLC; the harness store (harness/modelstore) as an implement
            "implementation traces are TLC-simulated behaviours plus seeded random histories, not all histories.")
 
 CLAIMS = {
+    "C11": dict(level="exploration", ref="DESIGN.md §3 C11, §4",
+                text="spec/AuthResponse.tla gives the channel table (response mode x response type x kind of response -> query | fragment | form), the parameter "
+                     "set of each kind and the exhaustive case set (kind x mode x redirect-URI shape x state / session_state strings over a class alphabet "
+                     "of delimiter, escape and markup characters); TLC checks the table and exports the cases. Each case is run through /authorize and "
+                     "/authorize/callback of both routers; the harness decodes the response as a user agent would and reports, per parameter, whether the "
+                     "recovered value equals the sent / produced one, whether the registered query survived, whether the target is the registered URI and "
+                     "whether the form markup is intact; the monitor AuthResponseTrace judges these observations with the rules C11.*. The flow-level rule "
+                     "C11.state of OP.tla is evaluated on every Callback event of the C03/C04 histories as well.",
+                technique="TLA+ decision-table spec (channel table + case set) model-checked with TLC; cases executed on both routers; fidelity observed by the harness and judged by the TLA+ monitor",
+                note="Encode/decode fidelity is not something TLC can conclude from a model (DESIGN.md §4): level 'exploration', class-exhaustive and member-sampled."),
     "C14": dict(level="model_checking", ref="DESIGN.md §3 C14",
                 text="Two decision-table specs. spec/Assertion.tla: assertion (iss, sub, aud, exp, iat, signing key of client A / B / nobody, header kid, alg, "
                      "payload edit) x verifier configuration (subject check default / delegation, max age) x identity probe; TLC checks the transcription of "
